@@ -36,7 +36,7 @@ pub fn run(run: &mut Run) {
         "orientations": ["rows", "columns"],
         "variants": 3,
         "interesting_contents": st::CONTENTS,
-        "interesting_cells_per_workbook": if thorough { "1 (all variants) and 2 (variant 0)" } else { "1" },
+        "interesting_cells_per_workbook": if thorough { "1 (all variants) and 2 (variant 0, unordered content pairs at every position pair)" } else { "1" },
         "positions": "1..=7, last, last-1, last-6",
         "counts": if thorough { "1..=3" } else { "1..=2" },
         "apis": ["Model", "UserModel"],
